@@ -72,7 +72,7 @@ def gen_leak_enum() -> Iterator[Dict[str, Any]]:
             if 0 not in seq and 1 not in seq:
                 continue
             ops = [calls[i] for i in seq] + [["tkiq", False], ["run_last", "ok"]]
-            yield {"cfg": {"decl": [["a", 1]], "ser": "json"}, "ops": ops, "family": "leak_enum"}
+            yield {"cfg": {"decl": [["a", 1]] if (len(seq) + seq[0]) % 2 else [], "ser": "json"}, "ops": ops, "family": "leak_enum"}
 
 
 def gen_values_enum() -> Iterator[Dict[str, Any]]:
